@@ -6,7 +6,8 @@ import toygen
 PROP = "C06"
 CONSTS = ['toy', 'mem']          # constant tables of the models this property depends on
 RULE = ("random TOY memory images (program length 0..20, data words, self-modifying stores, branches into and past "
-        "the program, opcodes 13-15), stepped with step(); thorough adds a sweep of all 2^16 words as a single "
+        "the program, opcodes 13-15), stepped with step(); every opcode as the first word of 1-, 2- and 3-word programs with "
+        "boundary addresses (0, last, first past the program, 0xFFF) and accumulators (0, 1, 0xFFFF); thorough adds a sweep of all 2^16 words as a single "
         "instruction on boundary accumulator/memory values; non-trivial = program executes >=2 instructions; "
         "distinct = distinct image")
 ASSUMPTIONS = ["fixedint UInt16/UInt12 wrap-around"]
@@ -16,6 +17,17 @@ def cases(rng, tier):
     n = 300 if tier == "quick" else 4000
     for _ in range(n):
         yield toygen.image_case(rng, toygen.step_only, max_steps=rng.choice([5, 20, 60]))
+    # short programs, every opcode, boundary operands (incl. one-instruction programs that branch to themselves, to the
+    # word after the program and to 0xFFF), independent of the seed
+    for n in (1, 2, 3):
+        for op in range(16):
+            for a in (0, n - 1, n, 4095):
+                for acc in (0, 1, 0xFFFF):
+                    words = [(op << 12) | a] + [0x9000, 0x2000][: n - 1]        # INC ; BRZ 0 behind it
+                    lines = ["toy.new", "toy.load " + " ".join([str(n)] + [str(w) for w in words] + ["4095:7"]), f"toy.accu {acc}", "toy.snap"]
+                    for _ in range(6):
+                        lines += ["toy.call step", "toy.snap"]
+                    yield Case("toy-short", lines, None, {"n": n, "words": words + [acc]})
     if tier == "thorough":
         for w in range(0, 65536):
             acc = [0, 1, 0xFFFF, 0x8000, 0x1234][w % 5]
